@@ -78,7 +78,15 @@ impl Streams {
                 let mut stream = Stream::new();
                 stream.add_value(value, generation)?;
                 let descriptor = StreamDescriptor::global(stream);
-                self.streams.insert(name.to_string(), vec![descriptor]);
+                match self.streams.entry(name.to_string()) {
+                    // only restricted streams opened by enclosing `new`s exist (the value is added from a
+                    // position outside their spans, e.g. in a fold body re-entered through `next`):
+                    // they must be kept, the global stream is the outermost one
+                    Occupied(mut entry) => entry.get_mut().insert(0, descriptor),
+                    Vacant(entry) => {
+                        entry.insert(vec![descriptor]);
+                    }
+                }
             }
         }
         Ok(())
